@@ -9,6 +9,7 @@
 package main
 
 import (
+	"os"
 	"sync"
 	"time"
 
@@ -19,6 +20,23 @@ var (
 	violMu   sync.Mutex
 	violSeen = map[string]int{}
 )
+
+// runChild is core.RunChild with the child's scratch directory on tmpfs when
+// there is one: nothing here depends on the file system type (a crash is a
+// process kill, durability is judged from the syscall trace), and fsync /
+// rename-over on a shared disk can stall for seconds when the machine is busy.
+func runChild(name string, in any, opt core.ChildOpt) *core.ChildResult {
+	if opt.Dir == "" {
+		opt.Dir = scratchDir(fastScratch)
+		if !opt.KeepDir {
+			defer os.RemoveAll(opt.Dir)
+		}
+		opt.KeepDir = true
+	}
+	return core.RunChild(name, in, opt)
+}
+
+const fastScratch = "/dev/shm"
 
 // violOnce reports at most two witnesses per signature (the counters keep the totals).
 func violOnce(c *core.Ctx, sig, what string, witness any) {
